@@ -13,6 +13,7 @@ def program_pool(ctx, n_fuzz, n_unknown=40, guards=True, flags_for_guards=(0,), 
     ot = gen_prog.optest_programs(r, n_optest if n_optest is not None else max(60, n_fuzz // 3), only=optest_only)
     pool += [(p, e, "optest:" + nm) for p, e, nm in ot]
     fz = fz + [(p, e) for p, e, _ in ot]
+    pool += [(p, e, "flagsens[f=%d %s]" % (bit, what)) for p, e, bit, what in gen_prog.flag_sensitive_programs(r, 1 if n_fuzz < 2000 else 3)]
     pool += [(p, e, "shape") for p, e in gen_prog.small_programs(r)]
     pool += [(p, e, "unknown") for p, e in gen_prog.unknown_op_programs(r, n_unknown)]
     if guards and fz:
@@ -22,6 +23,17 @@ def program_pool(ctx, n_fuzz, n_unknown=40, guards=True, flags_for_guards=(0,), 
     for _, _, tag in pool:
         ctx.histogram("program_source", tag.split("[")[0].split(":")[0])
     return pool
+
+
+def pick_flags(r, tag, p=0.15, exclude=0, include=0):
+    """a random flag set; programs tagged flagsens[f=BIT ...] get BIT set or cleared with equal
+    probability (that bit decides their outcome), and NEW_COST_MODEL with probability 1/2"""
+    f = gen_prog.random_flags(r, p)
+    if tag.startswith("flagsens[f="):
+        bit = int(tag.split("=")[1].split()[0])
+        f = (f | bit) if r.random() < 0.5 else (f & ~bit)
+        f = (f | FLAG["NEW_COST_MODEL"]) if r.random() < 0.5 else (f & ~FLAG["NEW_COST_MODEL"])
+    return (f | include) & ~exclude
 
 
 def canon_run(s):
